@@ -354,9 +354,9 @@ func (e *env) do(m Move) string {
 			}
 		}
 	case "cancel":
+		// calls in flight stay gated: the outputs must not close while they are (the gates open after the script)
 		e.cancelled = true
 		e.cancel()
-		e.openGates()
 	case "release":
 		e.release(m.I)
 	case "releaseAll":
